@@ -45,6 +45,9 @@ func genH2Beh(t *rapid.T, good, connFaults bool) Beh {
 		b.Status = rapid.IntRange(200, 599).Draw(t, "status")
 		b.Body = rapid.SampledFrom([]string{"", "x", "{not json", "<html><div", "null"}).Draw(t, "body")
 	}
+	if b.Kind == "short_body" && rapid.Bool().Draw(t, "announcesFarMore") {
+		b = announceBeh(t)
+	}
 	return b
 }
 
@@ -71,6 +74,10 @@ func (b Beh) h2resp() target.H2Resp {
 		return target.H2Resp{KillConn: true}
 	case "short_body":
 		return target.H2Resp{Resp: target.Resp{Status: 200, Body: []byte("short")}, DeclaredLen: 50}
+	case "announce":
+		// a GET gets the first bytes of the body and the end of the stream, a HEAD (legally) the headers only
+		return target.H2Resp{Resp: target.Resp{Status: 200, Body: []byte(`{"key": "va`),
+			Header: map[string]string{"Content-Type": "application/json", "X-Token": goodToken}}, DeclaredLen: int(b.Len)}
 	}
 	return target.H2Resp{Resp: target.Resp{Status: 200, Body: []byte("ok")}}
 }
@@ -342,6 +349,14 @@ func genH2Scen(t *rapid.T) H2ScenCase {
 				hs = genHs(t, 1)
 			case 1:
 				b = genH2ScenBeh(t)
+				// (as long as no invocation is cut short, attempt a is step a mod k)
+				if c.Steps[a%k].Method == "HEAD" && rapid.IntRange(0, 1).Draw(t, "headOfHuge") == 0 {
+					b = announceBeh(t) // the HEAD step asks about a huge resource
+				}
+			case 2:
+				if c.Steps[a%k].Method == "HEAD" {
+					b = announceBeh(t)
+				}
 			}
 		}
 		c.Handshakes = append(c.Handshakes, hs)
@@ -363,6 +378,9 @@ func genH2ScenBeh(t *rapid.T) Beh {
 	case 8:
 		return Beh{Kind: "ok", Prices: genPrices(t)} // a catalogue page (for var/xpath steps with generated expressions)
 	default:
+		if rapid.IntRange(0, 2).Draw(t, "announcesFarMore") == 0 {
+			return announceBeh(t)
+		}
 		return genH2Beh(t, false, true)
 	}
 }
@@ -441,8 +459,14 @@ func checkH2Scen(c H2ScenCase, o *vf.Obs) error {
 			if !(l.tag == wantTag || strings.HasPrefix(l.tag, wantTag+"|")) {
 				return fmt.Errorf("invocation %d sample %d is tagged %q, expected the scenario and step name %q\n%s", j, i, l.tag, wantTag, data)
 			}
+			// a HEAD step answered with the size of a huge resource got a legal, well-behaved answer
+			legalHead := n < len(c.Behs) && c.Handshakes[n] == target.HsOK && headAnnounce(c.Steps[i], c.Behs[n])
+			if legalHead {
+				o.Class("head_announces_huge_on_" + c.Steps[i].Post)
+				o.ClassIf(c.Steps[i].Post != "none", "head_announces_huge_postprocessed")
+			}
 			switch {
-			case good(n):
+			case good(n) || legalHead:
 				if !clean(l) {
 					return suspectIfTimeout(l, fmt.Errorf("attempted step %d (invocation %d step %d) got a well-behaved 200 response over HTTP/2 but its sample says proto=%d net=%d (handshakes %q)\n%s\n%s",
 						n, j, i, l.proto, l.net, hss, data, yaml))
@@ -467,6 +491,10 @@ func checkH2Scen(c H2ScenCase, o *vf.Obs) error {
 				bad++
 				if n < len(c.Behs) {
 					o.Class("h2_mis_" + c.Behs[n].Kind + "_on_" + c.Steps[i].Post)
+					if c.Behs[n].Kind == "announce" {
+						o.ClassIf(c.Steps[i].Post != "none", "lying_length_postprocessed")
+						o.ClassIf(c.Steps[i].Post != "none" && unallocatable(c.Behs[n].Len), "lying_length_unallocatable_postprocessed")
+					}
 				}
 			}
 		}
@@ -476,6 +504,7 @@ func checkH2Scen(c H2ScenCase, o *vf.Obs) error {
 	}
 	for _, st := range c.Steps {
 		o.Class("post_" + st.Post)
+		o.ClassIf(st.Method == "HEAD", "head_step")
 	}
 	o.ClassIf(goodAfterAlert, "h2_good_after_tls_alert")
 	if goodAfterBad {
